@@ -207,7 +207,7 @@ def run(ctx):
     for case in ctx.mine(staircase_cases()):
         body(case, ctx.rec, 5000)
     # (b) histories
-    n = ctx.share(4000 if ctx.quick else 32000)
+    n = ctx.share(4000 if ctx.quick else 16000)
     explore(ctx, cases(25 if ctx.quick else 200), lambda c, r: body(c, r, cap), n)
 
 
